@@ -125,7 +125,9 @@ impl<'a> CodeBody<'a> {
             if let Some(a) = b.completion_value.take() {
                 b.terminator = Some(Terminator::Return(a));
             } else {
-                b.terminator = if reachable[i] {
+                // a block having statements isn't an empty join point. it may be entered by
+                // unconditional branch of which completion value can't be returned instead.
+                b.terminator = if reachable[i] || !b.statements.is_empty() {
                     let end = byte_range.end; // implicit return should be at end
                     Some(Terminator::Return(Operand::Void(Void::new(end..end))))
                 } else {
